@@ -221,6 +221,8 @@ var reservedNames = map[string]any{
 	"WINT_MIN":                 nil,
 	"xor":                      nil,
 	"xor_eq":                   nil,
+	// the parameter of the generated comparison operators
+	"other": nil,
 }
 
 func TypeSyntax(t dsl.Type) string {
